@@ -1,11 +1,15 @@
 #!/bin/bash
-# usage: try_patch.sh <patch.diff> <Cxx> [tier]   -- apply a patch to /repo, run one check, always revert.
+# usage: try_patch.sh <abs patch.diff> <Cxx> [tier]   -- apply a patch to /repo, run one check, always revert.
+# Evidence and replays of the run go to a scratch directory ($TRY_OUT, default /tmp/try-out), never to /verif/evidence:
+# the evidence committed under /verif is always that of a run on the unchanged tree.
 set -u
 patch=$1; id=$2; tier=${3:-quick}
 cd /repo || exit 2
 if [ -n "$(git status --porcelain)" ]; then echo "repo dirty, refusing"; exit 2; fi
 git apply "$patch" || { echo "patch does not apply"; exit 3; }
-/verif/bin/govc check "$id" --tier "$tier"
+export VERIF_OUT_DIR="${TRY_OUT:-/tmp/try-out}"
+mkdir -p "$VERIF_OUT_DIR/evidence" "$VERIF_OUT_DIR/replays"
+/verif/checks/check.sh "$id" "$tier"
 rc=$?
 git checkout -- . ; git clean -fdq
 echo "exit=$rc"
